@@ -6,6 +6,8 @@ import LdkModel.Model.MsgCustom
 import LdkModel.Generated.WireTypes
 import LdkModel.Model.MsgBitcoin
 import LdkModel.Model.Int64
+import LdkModel.Generated.TlvLoop
+import LdkModel.Model.TlvProbe
 /-! C13 model driver.  ops:
     dec <MsgName> <hex>    decode with the generated schema of <MsgName>; `ok <hex of re-encoding>` / `err <DecodeError>`
     wire <hex>             wireRead over the generated dispatch table; `ok <Name> <id> <re-encoding>` /
@@ -21,7 +23,12 @@ import LdkModel.Model.Int64
     cs <hex>               Btc.CompactSize.decode; `ok <n> <rest hex>` / `err ..`
     i64 <hex>              readI64 (two's complement); `ok <decimal> <rest hex>` / `err ..`
     bigsize <hex>          BigSize.decode; `ok <n> <rest hex>` / `err <DecodeError>`
-    bigenc <n>             BigSize.encode -/
+    bigenc <n>             BigSize.encode
+    tlvp <hex>             tlvProbeSchema (Model/TlvProbe.lean: required TLVs 2, 6; optional 3, 9) over a bare TLV stream;
+                           `ok <a> <b|-> <c> <d|->` / `err ..`
+    every Schema decode (ops dec, tlvp) is ALSO run through TlvSrc.schemaDecodeSrc, the reader built from the decisions translated from
+    util/ser_macros.rs / util/ser.rs (Generated/TlvLoop.lean, proved equal: Props/C13Tlv tlv_loop_is_source); ` src-differs` is appended
+    when the two disagree -/
 namespace Ldk.Driver
 open Ldk.Codec Ldk.Codec.Gen
 
@@ -111,6 +118,11 @@ def customWire : List (Nat × String) :=
 def wireModelled : Bool := wireDispatch.all fun n =>
   (wireTypes.lookup n).any fun t => (wireTable.lookup t).isSome || (customWire.lookup t).isSome
 
+/-- `Schema.decode` (the hand-written loop the theorems of Props/C13 are about), cross-checked with the translated reader -/
+def schemaDec (s : Schema) (b : Bytes) : Res MsgVal × String :=
+  let r := s.decode b
+  (r, if TlvSrc.schemaDecodeSrc s b == r then "" else " src-differs")
+
 def c13 : Drv where
   σ := Unit
   init := ()
@@ -119,9 +131,9 @@ def c13 : Drv where
     | ["dec", name, h] =>
       match (generatedSchemas ++ Hand.handSchemas).find? (fun s => s.name == name) with
       | some s =>
-        match s.decode (unhex h) with
-        | .ok v => ((), "ok " ++ hex (s.encode v))
-        | .error e => ((), "err " ++ e.name)
+        match schemaDec s (unhex h) with
+        | (.ok v, d) => ((), "ok " ++ hex (s.encode v) ++ d)
+        | (.error e, d) => ((), "err " ++ e.name ++ d)
       | none =>
         match otherDec name (unhex h) with
         | some (.ok (re, suffix)) => ((), "ok " ++ re ++ suffix)
@@ -163,6 +175,10 @@ def c13 : Drv where
       | .ok (n, r) => ((), s!"ok {n} " ++ hex r)
       | .error e => ((), "err " ++ e.name)
     | ["bigenc", n] => ((), hex (BigSize.encode (nat! n)))
+    | ["tlvp", h] =>
+      match schemaDec tlvProbeSchema (unhex h) with
+      | (.ok v, d) => ((), "ok " ++ " ".intercalate (v.tlvs.map fun o => match o with | some (.nat n) => toString n | _ => "-") ++ d)
+      | (.error e, d) => ((), "err " ++ e.name ++ d)
     | _ => ((), "bad-op")
 
 end Ldk.Driver
